@@ -10,6 +10,8 @@ import (
 	"strings"
 	"time"
 
+	"github.com/ipfs/go-cid"
+
 	"verifharness/fakeipfs"
 )
 
@@ -25,12 +27,13 @@ type Result struct {
 }
 
 type Options struct {
-	Schedule  []int         // choice list, consumed cyclically
-	Order     []string      // replay: enforce this completion order while possible
-	Settle    time.Duration // quiet period before a release (default 300µs)
-	HangAfter time.Duration // quiet period with nothing outstanding before a hang is declared (default 3s)
-	HardLimit time.Duration // give up (inconclusive) after this long (default 60s)
-	OnQuiet   func() bool   // called when the store is quiet and nothing is pending; return true if it did something (e.g. cancelled a context)
+	Schedule  []int               // choice list, consumed cyclically
+	Order     []string            // replay: enforce this completion order while possible
+	Settle    time.Duration       // quiet period before a release (default 300µs)
+	HangAfter time.Duration       // quiet period with nothing outstanding before a hang is declared (default 3s)
+	HardLimit time.Duration       // give up (inconclusive) after this long (default 60s)
+	Slow      func(c string) bool // blocks that complete last
+	OnQuiet   func() bool         // called when the store is quiet and nothing is pending; return true if it did something (e.g. cancelled a context)
 }
 
 // Run executes fn under the gate.
@@ -113,7 +116,11 @@ func Run(store *fakeipfs.Store, opt Options, fn func()) Result {
 				}
 			}
 			if !released && orderIx >= len(opt.Order) {
-				_, ooo := gate.Release(opt.Schedule[step%len(opt.Schedule)])
+				var avoid func(cid.Cid) bool
+				if opt.Slow != nil {
+					avoid = func(c cid.Cid) bool { return opt.Slow(c.String()) }
+				}
+				_, ooo := gate.ReleaseAvoiding(opt.Schedule[step%len(opt.Schedule)], avoid)
 				step++
 				if ooo {
 					res.OutOfOrder++
